@@ -75,6 +75,35 @@ type Resp struct {
 	Body   []byte
 	Panic  string // panic value + stack when the handler panicked
 	Wrote  bool   // WriteHeader or Write was called
+	// ClosedUnreadBody: the request carried "Expect: 100-continue" and the handler closed the
+	// body, without ever having read from it, before it wrote any part of its answer.
+	// net/http's Close drains up to 256 KiB of such a body from the connection without
+	// sending "100 Continue": the client, which waits for exactly that or for a final
+	// status, and the handler wait for each other.
+	ClosedUnreadBody bool
+}
+
+// expectBody stands for the body of a request sent with "Expect: 100-continue".
+type expectBody struct {
+	io.Reader
+	left    int
+	reads   int
+	rec     *Recorder
+	flagged bool
+}
+
+func (b *expectBody) Read(p []byte) (int, error) {
+	b.reads++ // (the first Read makes net/http send "100 Continue": from then on the client sends)
+	n, err := b.Reader.Read(p)
+	b.left -= n
+	return n, err
+}
+
+func (b *expectBody) Close() error {
+	if b.reads == 0 && b.left > 0 && b.rec != nil && !b.rec.WroteHeader {
+		b.flagged = true
+	}
+	return nil
 }
 
 // Recorder is a minimal ResponseWriter (httptest.ResponseRecorder semantics).
@@ -206,6 +235,11 @@ func Serve(h http.Handler, r Req) (resp Resp) {
 		rec = NewRecorder()
 		rw = rec
 	}
+	var eb *expectBody
+	if rec != nil && r.BodyReader == nil && len(r.Body) > 0 && strings.EqualFold(hr.Header.Get("Expect"), "100-continue") {
+		eb = &expectBody{Reader: bytes.NewReader(r.Body), left: len(r.Body), rec: rec}
+		hr.Body = eb
+	}
 	done := make(chan string, 1)
 	go func() {
 		defer func() {
@@ -231,6 +265,7 @@ func Serve(h http.Handler, r Req) (resp Resp) {
 		}
 		resp.Body = rec.Buf.Bytes()
 		resp.Wrote = rec.WroteHeader
+		resp.ClosedUnreadBody = eb != nil && eb.flagged
 		// net/http's server fills in a Content-Type guessed from the first 512 body
 		// bytes when the handler set none (and no Content-Encoding): part of what a
 		// client of the real server sees, so the recorder does the same
